@@ -44,7 +44,7 @@ RULE = ("exhaustive small domains and random larger ones: every nibble sequence 
 ASSUMPTIONS = []
 BUDGET_S = {"quick": 60, "thorough": 600}
 
-CHUNK = 400
+CHUNK = 150
 
 
 def chunks(kind, it):
@@ -67,13 +67,13 @@ def bitstr(bs):
 
 
 def gen_cases(rng, tier):
-    nl = 3 if tier == "quick" else 4
+    nl = 4 if tier == "quick" else 5
     yield from chunks("nibbles", (list(ns) for L in range(nl + 1) for ns in itertools.product(range(16), repeat=L)))
     yield from chunks("nibbles", ([rng.randrange(16) for _ in range(rng.randint(nl + 1, 70))] for _ in range(2000 if tier == "quick" else 20000)))
-    bl = 1 if tier == "quick" else 2
+    bl = 2
     yield from chunks("bytes", (bytes(b).hex() for L in range(bl + 1) for b in itertools.product(range(256), repeat=L)))
     yield from chunks("bytes", (bytes(rng.randrange(256) for _ in range(rng.randint(2, 40))).hex() for _ in range(4000 if tier == "quick" else 40000)))
-    tl = 11 if tier == "quick" else 15
+    tl = 13 if tier == "quick" else 17
     yield from chunks("bits", (list(bs) for L in range(tl + 1) for bs in itertools.product((0, 1), repeat=L)))
     yield from chunks("bits", ([rng.randrange(2) for _ in range(rng.randint(tl + 1, 300))] for _ in range(1500 if tier == "quick" else 15000)))
     # malformed stream
